@@ -152,59 +152,112 @@ func beAppend(n int) libModel {
 	}
 }
 
-// ---- bytes.Buffer: modelled as its buf field with append semantics (off == 0 always) ----
+// ---- bytes.Buffer: value-semantics model ----
+// The content of a Buffer is a ghost sequence (length + array value) indexed by the buffer's address. Write* extend
+// the sequence; Bytes() copies it into fresh storage and freezes the buffer: a later Write on a frozen buffer is an
+// unsupported construct (the real Buffer may then alias the returned slice, which this model does not represent).
 
-func bufType(callee *ssa.Function) types.Type {
-	return callee.Signature.Recv().Type().(*types.Pointer).Elem()
+const (
+	bufLenSite  = "bytes.Buffer.$len"
+	bufDataSite = "bytes.Buffer.$data"
+	bufFrozSite = "bytes.Buffer.$frozen"
+)
+
+var bufDataSort = SArr(SInt, SBV(8))
+
+func (u *Unit) bufInit(st *state, p string) {
+	u.setArr(st.mem, bufLenSite, SInt, store(u.arr(st.mem, bufLenSite, SInt), p, "0"))
+	u.setArr(st.mem, bufFrozSite, SBool, store(u.arr(st.mem, bufFrozSite, SBool), p, "false"))
 }
 
-func bufLoad(f *Frame, st *state, callee *ssa.Function, recv Val, ins ssa.Instruction) (Val, string, types.Type) {
-	bt := bufType(callee)
+func isBytesBuffer(t types.Type) bool {
+	n, ok := types.Unalias(t).(*types.Named)
+	return ok && n.Obj().Pkg() != nil && n.Obj().Pkg().Path() == "bytes" && n.Obj().Name() == "Buffer"
+}
+
+func (u *Unit) bufState(f *Frame, st *state, recv Val, ins ssa.Instruction, writing bool) (L, D string) {
 	need(f, st, ins, "Buffer:nonnil", not(eq(recv.S[0], "0")))
-	off, _, _ := fieldOffset(bt, 0)
-	addr := add(recv.S[0], intLit(int64(off)))
-	ft := bt.Underlying().(*types.Struct).Field(0).Type()
-	return f.u.load(st, addr, ft, fieldHint(bt, 0), true), addr, ft
+	if writing {
+		fr := sel(u.arr(st.mem, bufFrozSite, SBool), recv.S[0])
+		u.oblige(f, st, "unsupported", f.ordLabel(ins, "unsupported")+" Buffer written after Bytes()", ins.Pos(), not(fr))
+	}
+	L = u.ctx.def("buflen", SInt, sel(u.arr(st.mem, bufLenSite, SInt), recv.S[0]))
+	D = u.ctx.def("bufdata", bufDataSort, sel(u.arr(st.mem, bufDataSite, bufDataSort), recv.S[0]))
+	u.ctx.assert("typing", implies(st.reach, le("0", L)))
+	return
+}
+
+// bufAppend appends n bytes read from array src at address q.
+func (u *Unit) bufAppend(st *state, recv Val, L, D, src, q, n string) {
+	var nd string
+	if k, ok := litInt(n); ok && k.Sign() >= 0 && k.Int64() <= 64 {
+		nd = D
+		for i := int64(0); i < k.Int64(); i++ {
+			nd = store(nd, add(L, intLit(i)), sel(src, add(q, intLit(i))))
+		}
+		nd = u.ctx.def("bufdata", bufDataSort, nd)
+	} else {
+		nd = u.ctx.freshConst("bufdata", bufDataSort)
+		body := ite(and(le(L, "j!"), lt("j!", add(L, n))), sel(src, add(q, sub("j!", L))), sel(D, "j!"))
+		u.ctx.assert("buf", fmt.Sprintf("(forall ((j! Int)) (! (= (select %s j!) %s) :pattern ((select %s j!))))", nd, body, nd))
+	}
+	u.setArr(st.mem, bufDataSite, bufDataSort, store(u.arr(st.mem, bufDataSite, bufDataSort), recv.S[0], nd))
+	u.setArr(st.mem, bufLenSite, SInt, store(u.arr(st.mem, bufLenSite, SInt), recv.S[0], add(L, n)))
 }
 
 func bufWrite(f *Frame, st *state, callee *ssa.Function, args []Val, ins ssa.Instruction, resT types.Type) *Val {
-	buf, addr, ft := bufLoad(f, st, callee, args[0], ins)
-	nb := f.u.appendSlice(f, st, ins, ft, buf, args[1], ft)
-	f.u.store(st, addr, ft, fieldHint(bufType(callee), 0), nb)
+	u := f.u
+	L, D := u.bufState(f, st, args[0], ins, true)
+	u.bufAppend(st, args[0], L, D, u.arr(st.mem, byteSite, SBV(8)), args[1].S[0], args[1].S[1])
 	return &Val{T: resT, S: []string{args[1].S[1], "0", "0"}}
 }
 
 func bufWriteString(f *Frame, st *state, callee *ssa.Function, args []Val, ins ssa.Instruction, resT types.Type) *Val {
-	buf, addr, ft := bufLoad(f, st, callee, args[0], ins)
-	nb := f.u.appendSlice(f, st, ins, ft, buf, args[1], types.Typ[types.String])
-	f.u.store(st, addr, ft, fieldHint(bufType(callee), 0), nb)
+	u := f.u
+	L, D := u.bufState(f, st, args[0], ins, true)
+	u.bufAppend(st, args[0], L, D, u.arr(st.mem, strSite, SBV(8)), args[1].S[0], args[1].S[1])
 	return &Val{T: resT, S: []string{args[1].S[1], "0", "0"}}
 }
 
 func bufWriteByte(f *Frame, st *state, callee *ssa.Function, args []Val, ins ssa.Instruction, resT types.Type) *Val {
-	buf, addr, ft := bufLoad(f, st, callee, args[0], ins)
-	tmp := f.u.tempBytes(st, []string{args[1].S[0]})
-	nb := f.u.appendSlice(f, st, ins, ft, buf, tmp, ft)
-	f.u.store(st, addr, ft, fieldHint(bufType(callee), 0), nb)
+	u := f.u
+	L, D := u.bufState(f, st, args[0], ins, true)
+	nd := u.ctx.def("bufdata", bufDataSort, store(D, L, args[1].S[0]))
+	u.setArr(st.mem, bufDataSite, bufDataSort, store(u.arr(st.mem, bufDataSite, bufDataSort), args[0].S[0], nd))
+	u.setArr(st.mem, bufLenSite, SInt, store(u.arr(st.mem, bufLenSite, SInt), args[0].S[0], add(L, "1")))
 	return &Val{T: resT, S: []string{"0", "0"}}
 }
 
 func bufBytes(f *Frame, st *state, callee *ssa.Function, args []Val, ins ssa.Instruction, resT types.Type) *Val {
-	buf, _, _ := bufLoad(f, st, callee, args[0], ins)
-	return &Val{T: resT, S: buf.S}
+	u := f.u
+	L, D := u.bufState(f, st, args[0], ins, false)
+	// capacity of the returned slice is unknown (>= len)
+	c := u.ctx.freshConst("bufcap", SInt)
+	u.ctx.assert("buf", and(le(L, c), le(c, "281474976710656")))
+	p := u.alloc(st, add(c, "1"))
+	old := u.arr(st.mem, byteSite, SBV(8))
+	na := u.ctx.freshConst("Mb:"+byteSite, SArr(SInt, SBV(8)))
+	body := ite(and(le(p, "a!"), lt("a!", add(p, L))), sel(D, sub("a!", p)), sel(old, "a!"))
+	u.ctx.assert("buf", fmt.Sprintf("(forall ((a! Int)) (! (= (select %s a!) %s) :pattern ((select %s a!))))", na, body, na))
+	u.sortOfSite(byteSite, SBV(8))
+	u.putArr(st.mem, byteSite, na)
+	u.setArr(st.mem, bufFrozSite, SBool, store(u.arr(st.mem, bufFrozSite, SBool), args[0].S[0], "true"))
+	// an empty Buffer returns a nil slice (b.buf[b.off:] of a nil buf)
+	return &Val{T: resT, S: []string{ite(eq(L, "0"), "0", p), L, ite(eq(L, "0"), "0", c)}}
 }
 
 func bufLen(f *Frame, st *state, callee *ssa.Function, args []Val, ins ssa.Instruction, resT types.Type) *Val {
-	buf, _, _ := bufLoad(f, st, callee, args[0], ins)
-	return &Val{T: resT, S: []string{buf.S[1]}}
+	L, _ := f.u.bufState(f, st, args[0], ins, false)
+	return &Val{T: resT, S: []string{L}}
 }
 
 func bytesNewBuffer(f *Frame, st *state, callee *ssa.Function, args []Val, ins ssa.Instruction, resT types.Type) *Val {
+	u := f.u
 	bt := resT.(*types.Pointer).Elem()
-	p := f.u.allocZero(st, bt)
-	ft := bt.Underlying().(*types.Struct).Field(0).Type()
-	f.u.store(st, p, ft, fieldHint(bt, 0), args[0])
-	return &Val{T: resT, S: []string{p}}
+	p := u.allocZero(st, bt)
+	recv := Val{T: resT, S: []string{p}}
+	u.bufAppend(st, recv, "0", u.ctx.freshConst("bufdata", bufDataSort), u.arr(st.mem, byteSite, SBV(8)), args[0].S[0], args[0].S[1])
+	return &recv
 }
 
 // ---- bytes helpers ----
